@@ -2,21 +2,21 @@ CONSTANTS
   N = 3
   L = 2
   Cap = 2
-  HasHead = TRUE
-  Manual = FALSE
+  HasHead = FALSE
+  Manual = TRUE
   HasPay = FALSE
-  HasPlans = TRUE
-  HasSerial = TRUE
+  HasPlans = FALSE
+  HasSerial = FALSE
   HasHist = TRUE
   HasLog = FALSE
   Verbose = FALSE
   InjCnt <- NoInj
   DefMask <- AllDef
-  MaxActs = 1
+  MaxActs = 2
   WithMonitors = TRUE
-  EnvOps <- SmokeOps
-  EnvActs <- SmokeActs
-  EnvPoints <- AllPoints
+  EnvOps <- GuardOps
+  EnvActs <- GuardActs
+  EnvPoints <- GuardPoints
 INIT Init
 NEXT Next
 VIEW StView
